@@ -18,4 +18,5 @@ THOROUGH = CONFIGS + [
 
 
 def run(check):
-    usimrun.explore(check, OBS, CONFIGS if check.tier == 'quick' else THOROUGH, random=True)
+    usimrun.explore(check, OBS, CONFIGS if check.tier == 'quick' else THOROUGH, random=True,
+                    invariants=('NoFault', 'NoForeignSignal', 'RunLive', 'CascadeShape', 'ChannelExact', 'ChannelConsumersDistinct'))
